@@ -64,6 +64,12 @@ func c16JoinInputs(in *absint.Interp, withCFList, asKEK, nsKEK bool) (*c16Inputs
 
 // c16Inputs2: rejoin < 0 builds a join-request, 0/1/2 a rejoin-request of that type.
 func c16Inputs2(in *absint.Interp, rejoin int, withCFList, asKEK, nsKEK bool) (*c16Inputs, error) {
+	return c16Inputs3(in, rejoin, rejoin, withCFList, asKEK, nsKEK)
+}
+
+// c16Inputs3: frameKind is the kind of frame the request carries (-1 join-request, 0/1/2 rejoin-request of that type);
+// it differs from the flow (rejoin) only in the wrong-kind configurations.
+func c16Inputs3(in *absint.Interp, rejoin, frameKind int, withCFList, asKEK, nsKEK bool) (*c16Inputs, error) {
 	d := in.D
 	st := &c16Inputs{dom: absint.True}
 	const bk = "backend"
@@ -106,10 +112,10 @@ func c16Inputs2(in *absint.Interp, rejoin int, withCFList, asKEK, nsKEK bool) (*
 	st.devNonce = d.Sym("devNonce", 16, false, false)
 	st.nwkKey = symBytes("nwkKey", 16)
 	st.netID = []absint.Value{d.Const(1, 8, false), d.Const(2, 8, false), d.Const(3, 8, false)}
-	switch rejoin {
+	switch frameKind {
 	case 0, 2:
 		// MHDR | type | NetID | DevEUI | RJcount0
-		st.phy = []absint.Value{d.Const(0xc0, 8, false), d.Const(int64(rejoin), 8, false), st.netID[2], st.netID[1], st.netID[0]}
+		st.phy = []absint.Value{d.Const(0xc0, 8, false), d.Const(int64(frameKind), 8, false), st.netID[2], st.netID[1], st.netID[0]}
 	case 1:
 		// MHDR | type | JoinEUI | DevEUI | RJcount1
 		st.phy = append([]absint.Value{d.Const(0xc0, 8, false), d.Const(1, 8, false)}, st.joinEUI...)
@@ -303,6 +309,76 @@ func c16JoinE1(c *Ctx) {
 					r.Check(badKeys == "", rule, key+"/session-keys", "", "the enveloped session keys are the ones the device derives", badKeys, true)
 				}
 			}
+		}
+	}
+}
+
+// c16WrongKind: a request of one flow that carries a frame of the other kind (a RejoinReq with a join-request frame, a
+// JoinReq with a rejoin-request frame) is never answered Success, whatever its MIC: the rejoin flow does not verify the
+// request MIC (the network server has), so serving a join-request frame there would hand out session keys for an
+// unauthenticated frame.
+func c16WrongKind(c *Ctx) {
+	r := c.Run
+	for _, cfg := range []struct {
+		rule, fn, name string
+		rejoin, frame  int
+	}{
+		{"R9.rejoin-e1", "handleRejoinRequestWrapper", "rejoin/frame=join-request", 0, -1},
+		{"R9.join-e1", "handleJoinRequestWrapper", "join/frame=rejoin-request-type0", -1, 0},
+		{"R9.join-e1", "handleJoinRequestWrapper", "join/frame=rejoin-request-type1", -1, 1},
+	} {
+		key := cfg.name + "/never-success"
+		in := absint.NewInterp(c.Prog)
+		d := in.D
+		st, err := c16Inputs3(in, cfg.rejoin, cfg.frame, false, false, false)
+		if err != nil {
+			r.Unknown(cfg.rule, key, "", "request construction", err.Error())
+			continue
+		}
+		small := d.Cmp(token.LSS, st.joinNonce, d.Const(1<<24, 32, false))
+		args, aerr := c16BuildArgs(in, c, cfg.fn, st)
+		if aerr != nil {
+			r.Unknown(cfg.rule, key, "", "the core's parameters can be filled by type and name", aerr.Error())
+			continue
+		}
+		bad, undec := "", ""
+		forParts(in, small, 6, func(dp absint.Node, tag string) error {
+			var res []absint.Value
+			if e := in.Try(func() {
+				in.SetLive(dp)
+				res = in.CallFunc("backend/joinserver", cfg.fn, args...)
+			}); e != nil {
+				return e
+			}
+			a, ok := res[0].(*absint.Struct)
+			if !ok {
+				return fmt.Errorf("answer is %T", res[0])
+			}
+			code, ok := c16Str(c16Field(a, "BasePayloadResult", "Result", "ResultCode"))
+			if !ok {
+				return fmt.Errorf("the result code still depends on a symbolic condition")
+			}
+			if code == "Success" && bad == "" {
+				bad = "answered Success"
+				if tag != "" {
+					bad += " (" + tag + ")"
+				}
+			}
+			return nil
+		}, func(tag string, e error) {
+			if pe, isP := e.(absint.Panic); isP {
+				bad = "panics: " + pe.Why + ", e.g. " + d.Witness(pe.Cond)
+				return
+			}
+			undec = e.Error()
+		})
+		switch {
+		case bad != "":
+			r.Bad(cfg.rule, key, "", "an error answer (the frame is not of the kind this flow serves)", bad)
+		case undec != "":
+			r.Unknown(cfg.rule, key, "", "inside the interpreter's subset", undec)
+		default:
+			r.OK(cfg.rule, key, "", "an error answer (the frame is not of the kind this flow serves)", "no partition is answered Success", true)
 		}
 	}
 }
